@@ -744,7 +744,10 @@ impl<K: CacheKey + 'static> AsyncCache<K> for DiskCache<K> {
                 .fetch_sub(entry.size_bytes as u64, Ordering::Relaxed);
             Ok(true)
         } else {
-            Ok(false)
+            // Not indexed, but a file written by an earlier instance may still be
+            // on disk, where `get` would find and serve it: delete it as well
+            let file_path = self.get_file_path(key);
+            Ok(fs::remove_file(&file_path).is_ok())
         }
     }
 
